@@ -9,7 +9,7 @@ import json, os, re, subprocess, sys, time
 
 ENV = dict(os.environ, GOFLAGS="-mod=mod", GOPROXY="off", GOSUMDB="off", GOTOOLCHAIN="local",
            PATH="/root/go/pkg/mod/golang.org/toolchain@v0.0.1-go1.24.2.linux-amd64/bin:" + os.environ["PATH"])
-WT = "/tmp/wt/V"
+WT = os.environ.get("SEED_WT", "/tmp/wt/V")
 
 
 def sh(cmd, cwd=None, timeout=1800):
